@@ -335,6 +335,7 @@ class Default:
     value: int
     form: str = "="  # '=' or ':'
     const_name: Optional[str] = None
+    text: Optional[str] = None  # literal spelling (binary, underscores, decimal, suffix); must denote `value`
 
 
 @dataclass
@@ -385,7 +386,7 @@ class Struct:
             args.append("debug")
         if self.default is not None:
             d = self.default
-            val = d.const_name if d.const_name else hexlit(d.value)
+            val = d.const_name if d.const_name else (d.text or hexlit(d.value))
             args.append(f"default {d.form} {val}")
         if self.debug and not self.debug_first:
             args.append("debug")
